@@ -192,7 +192,7 @@ def register(reg):
             c2.k = saved
 
     reg.add(Contract(
-        f"{S}._find_dependencies", props=["C01.1", "C02.1", "C13.L", "C04.3"],
+        f"{S}._find_dependencies", props=["C01.1", "C02.1", "C13.L", "C04.3", "C03.5", "C05.5", "C20.5"],
         params={"component": TRef("IComponent"), "output_owners": OwnersT, "target_time": Time},
         result=DepsT, requires=fd_pre, ensures=fd_post, modifies=lambda ctx: [], axioms=walk_axioms,
         loops={1: dict(invariant=outer_inv, locals={"deps": DepsT, "inp": TRef(None), "local_time": Time, "delayed": Bool, "buffered": Bool}),
@@ -407,7 +407,7 @@ def register_update(reg):
     UR_PRE_FULL = ur_pre
 
     reg.add(Contract(
-        f"{S}.Composition._update_recursive", self_cls="Composition", props=["C01.2", "C02.2", "C04.1", "C20.3"],
+        f"{S}.Composition._update_recursive", self_cls="Composition", props=["C01.2", "C02.2", "C04.1", "C20.3", "C03.5", "C05.5"],
         params={"comp": TRef("IComponent"), "chain": TOpt(ChainT), "target_time": TimeOpt},
         result=TOpt(TRef("IComponent")), requires=ur_pre, ensures=ur_post, modifies=ur_mod, axioms=ready_axioms,
         raises={"FinamCircularCouplingError": lambda ctx: z3.BoolVal(True),
@@ -1244,8 +1244,31 @@ def register_composition_connect(reg):
     loc = lambda ctx, o: ctx.get(o, "_mem_location")
 
     # helpers that are not the subject here: assumed (simple loops over the component list)
-    reg.add(Contract(f"{S}._get_start_time", params={"time_components": TList(TRef("ITimeComponent"))}, result=Time, pure=True, verify=False,
-                     raises={"ValueError": lambda ctx: z3.BoolVal(True)}, note="assumed: earliest component time"))
+    # ---- _get_start_time (C06.6 / C03): the composition starts at the earliest component time
+    def gst_none(ctx, upto=None):
+        lst = ctx.time_components
+        j = z3.Int("gs_j")
+        n = lst.n if upto is None else upto
+        return z3.ForAll([j], Implies(And(0 <= j, j < n), is_none(ctx.get(lst.at(j).e, "$ctime"))))
+
+    def gst_min(ctx, t, upto=None):
+        lst = ctx.time_components
+        j, w = z3.Int("gs_j"), z3.Int("gs_w")
+        n = lst.n if upto is None else upto
+        ct = lambda q: ctx.get(lst.at(q).e, "$ctime")
+        return And(z3.ForAll([j], Implies(And(0 <= j, j < n, Not(is_none(ct(j)))), t <= strip_none(ct(j)).e)),
+                   z3.Exists([w], And(0 <= w, w < n, Not(is_none(ct(w))), strip_none(ct(w)).e == t)))
+
+    def gst_inv(ctx):
+        tm_ = ctx.local("t_min")
+        return And(Implies(is_none(tm_), gst_none(ctx, ctx.k)), Implies(Not(is_none(tm_)), gst_min(ctx, strip_none(tm_).e, ctx.k)))
+
+    reg.add(Contract(f"{S}._get_start_time", props=["C06.6", "C03.1", "C05.5"], params={"time_components": TList(TRef("ITimeComponent"))}, result=Time, pure=True,
+                     modifies=lambda ctx: [],
+                     requires=lambda ctx: z3.ForAll([z3.Int("gs_j")], Implies(And(0 <= z3.Int("gs_j"), z3.Int("gs_j") < ctx.time_components.n), ctx.time_components.at(z3.Int("gs_j")).e > 0)),
+                     raises={"ValueError": lambda ctx: gst_none(ctx.old)}, must_raise={"ValueError": lambda ctx: gst_none(ctx)},
+                     ensures=lambda ctx, r: {"the earliest time of the time components": gst_min(ctx, r.e)},
+                     loops={1: dict(invariant=gst_inv, locals={"t_min": TimeOpt})}))
     for fn in ("_map_outputs", "_map_inputs"):
         reg.add(Contract(f"{S}.{fn}", params={"components": TList(TRef("IComponent"))}, pure=True, verify=False,
                          result=OwnersT if fn == "_map_outputs" else TDict(TRef("IInput"), TRef("IComponent")),
@@ -1291,7 +1314,7 @@ def register_composition_connect(reg):
                                                                       Implies(Not(is_none(sloc)), Not(is_none(loc(ctx, a))))))))
 
     reg.add(Contract(
-        f"{S}.Composition.connect", self_cls="Composition", props=["C10.5", "C19.5"], params={"start_time": TimeOpt},
+        f"{S}.Composition.connect", self_cls="Composition", props=["C10.5", "C19.5", "C06.6", "C03.1"], params={"start_time": TimeOpt},
         requires=lambda ctx: And(Not(exch(ctx)), validate_pre(ctx), distinct_comps(ctx), comps_in_status(ctx, ("INITIALIZED",))),
         modifies=lambda ctx: [(None, f) for f in ["$status", "$inputs", "$outputs", "_mem_limit", "_mem_location", "$ctime", "$next_time", "_time",
                                                   "_source", "_targets", "_output_info", "_input_info", "_out_infos_exchanged", "_in_info_exchanged",
